@@ -440,8 +440,11 @@ def r05_4c(prog, rep, rid="R05.4"):
 
 
 def r09_8(prog, rep, rid="R09.8"):
-    """INTERVAL is stored into an unsigned step that the fillers add to month/day/hour counters: only positive values may be admitted
-    (a negative number becomes 2^32-k, the counters walk backwards below 1 and index the month-length tables at -1)."""
+    """INTERVAL is stored into an unsigned step that the fillers add to (and multiply into) their month/day/hour counters.  (a) only
+    positive values may be admitted (a negative number becomes 2^32-k, the counters walk backwards below 1 and index the month-length
+    tables at -1); (b) an admitted value is stored as read (2^32 must not come out as 0: a stream that never advances); (c) the largest
+    admitted value survives the fillers' own arithmetic: `inter * K` stays within unsigned int, `signed counter += inter` stays
+    positive.  The multipliers and the signed counters are read off the fillers."""
     for v in (-1, -7):
         outs, f = rrule_scalar_read(prog, "INTERVAL", v)
         acc = [o for o in outs if o[0] == 1]
@@ -453,3 +456,50 @@ def r09_8(prog, rep, rid="R09.8"):
                      {"outcomes": [list(o) for o in outs]})
         else:
             rep.ok(rid, key, f.loc(), "INTERVAL=%d is rejected (or leaves the default step)" % v)
+    # (c) what the fillers do with the step
+    K = 1
+    signed_add = []
+    for g in prog.fns_in("evrrul.c"):
+        if not g.cfg:
+            continue
+        for b, i, x, line in g.cfg.all_elems():
+            if not isinstance(x, dict):
+                continue
+            for nn in walk(g.cfg.resolve(x)):
+                if nn.get("k") == "bin" and nn["op"] == "*":
+                    for side, other in (("l", "r"), ("r", "l")):
+                        if lv(strip_casts(nn[side])).endswith("->inter") and int_value(nn[other]) is not None:
+                            K = max(K, int_value(nn[other]))
+            for l, kind, nn in writes(x):
+                if kind == "compound" and nn.get("op") == "+=" and lv(strip_casts(g.cfg.resolve(nn["r"]))).endswith("->inter"):
+                    tl = strip_casts(l)
+                    ty = [l_ for l_ in g.locals if l_["n"] == lv(tl)]
+                    if ty and ty[0].get("s") is True:
+                        signed_add.append((g.name, lv(tl)))
+    umax, imax = 0xffffffff, 0x7fffffff
+    limit = (umax - 62) // K
+    if signed_add:
+        limit = min(limit, imax - 12)
+    probes = sorted({1 << 33, (1 << 32) + 5, 1 << 32, (1 << 32) - 1, 1 << 31, imax, imax - 12, limit + 1, limit, imax // K + 1, imax // K, 1000000}, reverse=True)
+    largest = None
+    for v in probes:
+        outs, f = rrule_scalar_read(prog, "INTERVAL", v)
+        acc = [o for o in outs if o[0] == 1]
+        key = "snarf_rrule/INTERVAL=%d" % v
+        if not acc:
+            rep.ok(rid, key, f.loc(), "INTERVAL=%d is rejected" % v, nontrivial=False)
+            continue
+        stored = {o[2] for o in acc}
+        if stored != {v}:
+            rep.fail(rid, key, f.loc(), "INTERVAL=%d is accepted but stored as %s: the number does not survive the conversion into the unsigned step "
+                     "(2^32 becomes 0 and the stream emits one instant for ever)" % (v, sorted(stored, key=str)))
+            continue
+        if v > limit:
+            rep.fail(rid, key, f.loc(), "INTERVAL=%d is accepted; the fillers multiply the step by %d and add it to the signed counter(s) %s: beyond %d that "
+                     "arithmetic wraps (a negative month indexes the month-length table out of bounds, a wrapped day count steps by the wrong amount)" % (
+                         v, K, sorted(set(signed_add)) or "-", limit))
+            continue
+        largest = v if largest is None else max(largest, v)
+        rep.ok(rid, key, f.loc(), "INTERVAL=%d is stored as read and within the fillers' arithmetic (x%d, signed += : %s)" % (v, K, bool(signed_add)), nontrivial=False)
+    if largest is None:
+        rep.broken_("rule=%s no probe of INTERVAL is accepted any more" % rid)
